@@ -34,6 +34,8 @@ def expected_tree(case, obs):
         moves = {}
         for d, rel, g in obs["gens"]:
             src, dst = os.path.normpath(os.path.join(d, rel)), os.path.normpath(os.path.join(d, g[1]))
+            if src not in before:
+                continue        # not an entry of the initial tree: the plan is what was generated for the INITIAL entries
             if src != dst:
                 moves[src] = dst
         out = {p: v for p, v in exp.items() if p not in moves}
